@@ -73,6 +73,21 @@ CLAIMED = {
    note="trusted: rational recovery, recording functions; the rounding bound is judged by harness float arithmetic (outside TLA+); one open known finding",
    technique="TLA+ spec GBStats model-checked with TLC + trace validation (Trace_GBCore, Trace_GBApply, Trace_GBCompose)",
    ref="DESIGN.md section 6/C16"),
+ "C03": dict(
+   text="One logical call is driven through every execution strategy (thresholds scaled to 2/4 rows: chunk-wise, monotone and partially monotone key routes; 1..4 threads; keys/values as arrow ChunkedArrays incl. misaligned chunks) and each run is validated by TLC against the same GBCore machine, so all strategies agree; TLC explores every completion order of the pool (GBParallel) and block merge (GBReduce); every completion order of 2..4 tasks is forced in the real ThreadPoolExecutor and validated as a trace; scaled replays at the real 1,000,000-row switch-over are validated through the blow-up law (a TLC invariant of GBCore).",
+   note="trusted: harness-side scheduler (subclass of the real ThreadPoolExecutor), threshold scaling via the module global and hook H3, projections",
+   technique="TLA+ specs GBParallel/GBReduce/GBCore model-checked with TLC + trace validation of strategy-product runs, forced pool schedules and scaled replays",
+   ref="DESIGN.md section 6/C03"),
+ "C11": dict(
+   text="Label order, listing (observed_only), sort off/on, category order and multi-key lexicographic order are validated by TLC through GBCore on every recorded call (exhaustive small inputs x flags, random 2-3-key groupings); result kind, Series name, index level names and column labels for every way of passing keys and values are validated by Trace_GBShape, and every column of a multi-input result is validated as its own single-input GBCore trace.",
+   note="trusted: projection of names/kinds/labels; labels invented for unnamed inputs are not judged",
+   technique="TLA+ spec GBCore model-checked with TLC + trace validation (Trace_GBCore per column, Trace_GBShape)",
+   ref="DESIGN.md section 6/C11"),
+ "C13": dict(
+   text="TLC enumerates every history of the 11 operation classes over the three key representations (GBObject; invariants: every operation enabled in every state, no way back to local codes); the labelled state graph is dumped and every transition is replayed on real GroupBy objects (several key arrays, flat and chunked), plus random walks of 10..30 operations; each call is compared with the same call on a freshly built grouping and each recorded history is validated by TLC against GBObject.",
+   note="trusted: driver-side equality with the fresh object's result; representation projection reads one private attribute (skipped if unobservable)",
+   technique="TLA+ spec GBObject model-checked with TLC, state graph replayed transition by transition into the real object, histories trace-validated",
+   ref="DESIGN.md section 6/C13"),
 }
 REASONS = {}
 props = [json.loads(l) for l in open("/verif/properties.jsonl")]
